@@ -157,14 +157,36 @@ fn eval_cli(map: &[Option<usize>], cs: &CallSet, rows: &[Vec<Cls>], container: C
         let first = sa.split(',').next().unwrap_or("").to_string();
         sa = format!("{sa},{first}");
     }
+    // "contradictory-entry": the first selected sample is named again at the end with the last
+    // population. The statement does not say which label wins; accepted are an error, the
+    // first-label and the last-label assignment (only maps where the first population keeps a
+    // sample are used, so both assignments have the same axes)
+    let mut alt_expect = None;
+    if what == "contradictory-entry" {
+        let first = map.iter().position(|p| p.is_some()).unwrap();
+        let last_pop = map.iter().flatten().max().copied().unwrap();
+        sa = format!("{sa},s{first}=p{last_pop}");
+        let mut m2 = map.to_vec();
+        m2[first] = Some(last_pop);
+        alt_expect = Some(ref_create(rows, &m2, None));
+    }
     let mut args: Vec<&str> = vec!["create", "-s", &sa];
     // "precision-<p>": an explicit --precision without projection must still print exact integers
     if let Some(p) = what.strip_prefix("precision-") {
         args.extend(["--precision", p]);
     }
+    // "verbosity<flag>": what is logged must not change what is counted
+    if let Some(v) = what.strip_prefix("verbosity") {
+        args.push(v);
+    }
     let o = run_sfs(&args, Stdin::Bytes(&bytes), scratch);
-    if what == "repeated-entry" && o.diagnosed_error() && o.stdout.is_empty() {
+    if (what == "repeated-entry" || what == "contradictory-entry") && o.diagnosed_error() && o.stdout.is_empty() {
         return None;
+    }
+    if let Some(alt) = &alt_expect {
+        if judge_stdout(&o, &alt.spectrum).is_ok() {
+            return None;
+        }
     }
     match judge_stdout(&o, &expect.spectrum) {
         Ok(()) => None,
@@ -351,6 +373,10 @@ pub fn run(tier: Tier) -> i32 {
         }
         if map.iter().any(|p| p.is_some()) {
             cjobs.push((map.clone(), all.clone(), rows.clone(), Container::Vcf, "repeated-entry".into()));
+            let pops = pop_sizes(map);
+            if pops.len() >= 2 && pops[0] >= 2 {
+                cjobs.push((map.clone(), all.clone(), rows.clone(), Container::Vcf, "contradictory-entry".into()));
+            }
             // (the every-row call set is invariant under permutations of the samples, so a sample
             // credited to another sample's population would be invisible on it: use a subset of rows
             // that no permutation of the samples maps onto itself)
@@ -361,6 +387,9 @@ pub fn run(tier: Tier) -> i32 {
         }
         for p in ["0", "1", "6", "17"] {
             cjobs.push((map.clone(), all.clone(), rows.clone(), Container::Vcf, format!("precision-{p}")));
+        }
+        for v in ["-q", "-v", "-vv", "-vvv"] {
+            cjobs.push((map.clone(), all.clone(), rows.clone(), Container::Vcf, format!("verbosity{v}")));
         }
         for d in DECORATIONS {
             let (cs, r2) = decorate(&all, &rows, d);
@@ -386,10 +415,39 @@ pub fn run(tier: Tier) -> i32 {
         name: "cli: sfs create -s".into(),
         evaluations: cjobs.len() as u64,
         nontrivial: nt,
-        note: format!("S={s}: {} maps x ({} one-record VCFs + every-row call set in 4 containers + explicit --precision 0/1/6/17 + a list naming one sample twice + the list grouped by population (order unlike the column order) + 8 decorations in vcf and bcf)", maps.len(), rows.len()),
+        note: format!("S={s}: {} maps x ({} one-record VCFs + every-row call set in 4 containers + explicit --precision 0/1/6/17 + verbosity flags -q/-v/-vv/-vvv + a list naming one sample twice (same label; and with another label: error, first- or last-label assignment) + the list grouped by population (order unlike the column order) + 8 decorations in vcf and bcf)", maps.len(), rows.len()),
         exhaustive: true,
         extra: vec![],
     });
+    // large shapes: two populations of 32 samples (65 x 65 = 4225 entries) and one of 2100 entries
+    {
+        let mut big: Vec<(Vec<Option<usize>>, CallSet, Vec<Vec<Cls>>, Container, String)> = Vec::new();
+        for (n, pops) in [(64usize, 2usize), (70, 1), (40, 3)] {
+            let map: Vec<Option<usize>> = (0..n).map(|i| Some(i * pops / n)).collect();
+            let classes = [Cls::G0, Cls::G1, Cls::G2, Cls::G0, Cls::G1, Cls::Missing, Cls::G2, Cls::G0, Cls::Multi];
+            let rows_big: Vec<Vec<Cls>> = (0..40usize)
+                .map(|r| (0..n).map(|j| { let c = classes[(j * (r + 2) + r * r) % classes.len()]; if (c == Cls::Missing || c == Cls::Multi) && r % 5 != 0 { Cls::G1 } else { c } }).collect())
+                .collect();
+            let cs = callset_from_rows(n, &rows_big, 0);
+            big.push((map.clone(), cs.clone(), rows_big.clone(), Container::Vcf, "large-shape".into()));
+            big.push((map, cs, rows_big, Container::Bcf, "large-shape".into()));
+        }
+        let res = par_map(big.len(), |i| {
+            let (map, cs, rows, c, what) = &big[i];
+            eval_cli(map, cs, rows, *c, what, &scratch)
+        });
+        for v in res.into_iter().flatten() {
+            rep.violation(v.0, v.1, v.2);
+        }
+        rep.part(Part {
+            name: "cli: large shapes".into(),
+            evaluations: big.len() as u64,
+            nontrivial: big.len() as u64,
+            note: "64 samples in 2 populations (65x65 = 4225 entries), 70 in one (141), 40 in three (27x27x29 = 21 141 entries); 40 records with missing / multiallelic genotypes in every fifth; vcf and bcf; every printed value compared".into(),
+            exhaustive: true,
+            extra: vec![],
+        });
+    }
     {
         let cs = callset_from_rows(3, &rows3[30..34], 1);
         rep.sample(J::obj([
@@ -439,6 +497,9 @@ pub fn replay(case: &J) -> Option<Vec<String>> {
             let mut args: Vec<&str> = vec!["create", "-s", &sa];
             if let Some(p) = what.strip_prefix("precision-") {
                 args.extend(["--precision", p]);
+            }
+            if let Some(v) = what.strip_prefix("verbosity") {
+                args.push(v);
             }
             let o = run_sfs(&args, Stdin::Bytes(vcf.as_bytes()), &scratch);
             println!("replay (vcf rendering of the case): {} stdout {:?} stderr {:?}", o.status_str(), o.stdout_str(), o.stderr_str());
